@@ -588,12 +588,28 @@ class JSONPathEnvironment:
         if left is UNDEFINED and right is UNDEFINED:
             return True
 
-        # Remember 1 == True and 0 == False in Python
-        if isinstance(right, bool):
-            left, right = right, left
+        return self._deep_eq(left, right)
 
-        if isinstance(left, bool):
-            return isinstance(right, bool) and left == right
+    def _deep_eq(self, left: object, right: object) -> bool:
+        # Remember 1 == True and 0 == False in Python, at any depth.
+        if isinstance(left, bool) or isinstance(right, bool):
+            return isinstance(left, bool) and isinstance(right, bool) and left == right
+
+        if isinstance(left, Mapping) and isinstance(right, Mapping):
+            return len(left) == len(right) and all(
+                key in right and self._deep_eq(val, right[key])
+                for key, val in left.items()
+            )
+
+        if (
+            isinstance(left, Sequence)
+            and isinstance(right, Sequence)
+            and not isinstance(left, str)
+            and not isinstance(right, str)
+        ):
+            return len(left) == len(right) and all(
+                self._deep_eq(a, b) for a, b in zip(left, right)  # noqa: B905
+            )
 
         return left == right
 
